@@ -804,7 +804,10 @@ func orderDependent(u Universe, cur Cluster, sc Scenario) bool {
 				}
 			}
 		}
-		if mut && nInv > 0 && nVal > 0 {
+		// (also without a mutation spelling: implicit namespace / CRD edges are inserted before the
+		// depends-on edges, so a prune object's dependents are not in object order either)
+		_ = mut
+		if isPrune[a] && nInv > 0 && nVal > 0 {
 			return true
 		}
 	}
